@@ -468,6 +468,26 @@ func Families(tier string) []Family {
 		fams = append(fams, f)
 	}
 
+	// complete-eq: suggested values that themselves end in `=` (key= suggestions of a map option), next to options whose
+	// names are prefixes of each other (C17, C19, C20)
+	{
+		f := Family{Name: "complete-eq"}
+		toks := Ts("--label=", "--label=r", "--label=z", "--label=region=", "--label=p", "--la=", "--la=k", "--l=", "--l=x", "--lab", "--l", "x", "")
+		for mode := 0; mode < 2; mode++ {
+			c := Cfg{Mode: mode}
+			c.Nodes = []NodeCfg{rootNode(0, false)}
+			label := multi("smap", "label", 1, 1, 2)
+			label.Sugg = Ts("region=", "zone=", "plain")
+			la := opt("string", "la", 1)
+			la.Sugg = Ts("k=")
+			l := opt("string", "l", 1)
+			l.Valid = Ts("x=", "y")
+			c.Opts = []OptCfg{label, la, l}
+			f.Defs = append(f.Defs, Def{Cfg: c, Tokens: toks, L: lim(tier, 2, 2), Comp: true})
+		}
+		fams = append(fams, f)
+	}
+
 	// order: at least two entries in every table a diagnostic is chosen from (C20)
 	{
 		f := Family{Name: "order"}
@@ -519,6 +539,7 @@ func Families(tier string) []Family {
 				o := multi(kind, "o"+kind, 1+(ki+variant)%4, 1, 1+ki%3)
 				if (ki+variant)%3 != 0 {
 					o.Aliases = Ts(string(rune('a'+ki)), "alias"+kind)[:1+(ki+variant)%2]
+					o.AliasSplit = ki%2 == 0 // each alias given by its own Alias modifier
 				}
 				o.Req = (ki+variant)%4 == 0
 				if o.Req && ki%2 == 0 {
@@ -542,7 +563,8 @@ func Families(tier string) []Family {
 				c.Self = true
 				c.Prog = T("tool")
 			}
-			c = WithHelp(c, hname, "?")
+			c = WithHelp(c, hname, "?", "hlp")
+			c.Opts[c.HelpOpt()-1].AliasSplit = variant >= 2
 			toks = Ts("--"+hname, hname, "c1", "sub")
 			f.Defs = append(f.Defs, Def{Cfg: c, Tokens: toks, L: lim(tier, 2, 3), Disp: true, HelpF: true})
 		}
